@@ -345,3 +345,192 @@ def batch_loop(ctx, W):
     if ct_ is not None:
         src = ("counted", ct_["init"], ct_["bound"], ct_["op"])
     return {"header": lp["header"], "source": src, "iterations": iterations, "recv": rb, "fn": fn}
+
+
+# ---------------------------------------------------------------------------------------------------------------------- responder typestate
+def _access_paths(t):
+    """Access paths (root, (field, ...)) a receiver term can denote; [] when it is not a place we can name."""
+    if not isinstance(t, tuple) or not t:
+        return []
+    if t[0] in ("ref", "deref", "reborrow") and len(t) > 1:
+        return _access_paths(t[1])
+    if t[0] == "field":
+        return [(r, p + (t[2],)) for r, p in _access_paths(t[1])]
+    if t[0] == "param":
+        return [(("param", t[2]), ())]
+    if t[0] == "obj":
+        return [(("obj",) + tuple(t[1:]), ())]
+    if t[0] == "phi":
+        out = []
+        for x in t[1]:
+            ap = _access_paths(x)
+            if not ap:
+                return []
+            out.extend(ap)
+        return out
+    return []
+
+
+def responder_typestate(ctx, W, group):
+    """Typestate of every Responder across the whole program: reset -> (add)* -> send_responses.
+
+    A responder is FRESH after `reset` (or its construction), USED after `send_responses`.  Adding a request and sending responses both need a
+    FRESH responder on every path: the Merkle tree, the queued requests and the indices handed out all belong to one batch, so a second batch
+    collected or sent without a reset in between is answered from a stale tree (C02/C09) -- also when that happens in a helper or after the
+    serving loop has been left (C19).  Interprocedural: each function gets a summary (what it needs FRESH on entry, what it leaves behind),
+    applied at its call sites; functions nobody calls are not judged.  Lattice per place: F(resh) > E(as on entry) > U(sed)."""
+    P = W.prog
+    order = {"F": 2, "E": 1, "U": 0}
+    memo = {}
+    reports = []
+
+    def prim(path):
+        f = P.fns.get(path)
+        if f is None or f.impl_self != RESPONDER:
+            return None
+        name = path.split("::")[-1]
+        if name == "reset":
+            return "reset"
+        if path == SEND:
+            return "send"
+        loc = f.locals[1] if len(f.locals) > 1 else {}
+        if loc.get("name") == "self" and loc.get("ty", "").startswith("&mut"):
+            return "use"
+        return "none"
+
+    def join(a, b):
+        keys = set(a) | set(b)
+        return {k: min(a.get(k, dflt(k)), b.get(k, dflt(k)), key=lambda v: order[v]) for k in keys}
+
+    def dflt(k):
+        return "E" if k[0][0] == "param" else "F"      # a responder constructed here starts out empty, like after reset
+
+    def summary(path):
+        if path in memo:
+            return memo[path]
+        memo[path] = None          # recursion guard: a recursive cycle is treated as having no events
+        fn = P.fns.get(path)
+        if fn is None or fn.impl_self == RESPONDER:
+            return None
+        events = {}
+        ev = None
+        for bb, t in fn.calls():
+            tg = P.call_targets(t)
+            kinds = [(prim(p), p) for p in tg if p in P.fns]
+            e = None
+            for k, p in kinds:
+                if k in ("reset", "send", "use"):
+                    ev = ev or W.ev(fn.path)
+                    aps = _access_paths(ev.call_args(bb)[0])
+                    e = (k, aps, p)
+                elif k is None:
+                    s = summary(p)
+                    if s and (s["req"] or s["out"]):
+                        ev = ev or W.ev(fn.path)
+                        e = ("call", [ _access_paths(a) for a in ev.call_args(bb)], p, s)
+            if e:
+                events[bb] = e
+        if not events:
+            memo[path] = {"req": {}, "out": {}}
+            return memo[path]
+        req = {}
+
+        rec = [False]
+
+        def need(state, k, bb, what):
+            if not rec[0]:
+                return
+            v = state.get(k, dflt(k))
+            if v == "E":
+                req.setdefault(k, (bb, what))
+            elif v == "U":
+                reports.append((fn, bb, k, what))
+
+        def subst(k, args):
+            (root, pth) = k
+            if root[0] != "param":
+                return []
+            i = root[1] - 1
+            if i >= len(args):
+                return []
+            return [(r, p + pth) for r, p in args[i]]
+
+        def transfer(bb, state):
+            e = events.get(bb)
+            if not e:
+                return state
+            st = dict(state)
+            if e[0] == "reset":
+                if len(e[1]) == 1:
+                    st[e[1][0]] = "F"
+            elif e[0] == "send":
+                for k in e[1]:
+                    need(st, k, bb, "send_responses")
+                for k in e[1]:
+                    st[k] = "U"
+            elif e[0] == "use":
+                for k in e[1]:
+                    need(st, k, bb, e[2].split("::")[-1])
+            else:
+                _, args, p, s = e
+                for k, (cbb, what) in s["req"].items():
+                    for ck in subst(k, args):
+                        need(st, ck, bb, "%s (via %s)" % (what, p.split("::")[-1]))
+                for k, v in s["out"].items():
+                    cks = subst(k, args)
+                    for ck in cks:
+                        if v == "F" and len(cks) == 1:
+                            st[ck] = "F"
+                        elif v == "U":
+                            st[ck] = "U"
+            return st
+
+        reach = fn.reachable()
+        IN = {0: {}}
+        OUT = {}
+        work = [0]
+        rounds = 0
+        while work:
+            rounds += 1
+            if rounds > 20000:
+                raise AnchorMissing("responder typestate does not converge in %s" % path)
+            b = work.pop()
+            o = transfer(b, IN[b])
+            if OUT.get(b) == o:
+                continue
+            OUT[b] = o
+            for s in fn.succ(b):
+                if s not in reach:
+                    continue
+                n = o if s not in IN else join(IN[s], o)
+                if s not in IN or n != IN[s]:
+                    IN[s] = n
+                    work.append(s)
+        # final pass with the fixpoint states: collect requirements / reports once
+        rec[0] = True
+        for b in sorted(IN):
+            transfer(b, IN[b])
+        out = None
+        for b in fn.exits():
+            if b in OUT:
+                o = {k: v for k, v in OUT[b].items()}
+                out = o if out is None else join(out, o)
+        out = {k: v for k, v in (out or {}).items() if k[0][0] == "param" and v != "E"}
+        memo[path] = {"req": {k: v for k, v in req.items() if k[0][0] == "param"}, "out": out, "events": len(events)}
+        return memo[path]
+
+    for path in sorted(P.fns):
+        summary(path)
+    judged = 0
+    for path in sorted(memo):
+        s = memo[path]
+        if s and s.get("events"):
+            judged += 1
+            fn = P.fns[path]
+            mine = [(bb, k, what) for (f, bb, k, what) in reports if f is fn]
+            ctx.check(group, "typestate/%s" % path.split("::", 1)[-1], not mine,
+                      "every add / send on a responder follows its reset with no send in between (needs on entry: %s)" % (
+                          sorted(".".join(k[1]) or "self" for k in s["req"]) or "nothing"),
+                      "; ".join("%s on %s without a reset since the last send_responses" % (what, ".".join(k[1]) or "the responder") for bb, k, what in mine),
+                      fn.loc(mine[0][0]) if mine else ctx.loc(fn))
+    ctx.floor(group + "-typestate", judged, 2, "functions that add to / send from a responder")
